@@ -1745,16 +1745,54 @@ def reentrant_refresh_cases(prop: str, rng: random.Random, n: int, res: Result) 
         ses.case, ses.tracks, ses.refresh, ses.payload = case, t, 0, None
         hist: list = []
         kinds = ["addedge", "deledge", "addnode", "delnode", "swap", "updattrs", "undo", "redo"] + (["paint"] if case.cfg == "seg" else [])
+        from psygnal import Signal as _Signal
+
+        class _Button:
+            pressed = _Signal()
+        button = _Button()
+        pressed_result: list = []
+        button.pressed.connect(lambda: pressed_result.append(t.undo() if pressed_result_kind[0] == "undo" else t.redo()))
+        pressed_result_kind = ["undo"]
         for _step in range(rng.randint(2, 6)):
             op = G.gen_op(rng, case, t, kinds)
             state["arm"] = rng.random() < 0.6
             nu, nr = len(t.action_history.undo_stack), len(t.action_history.redo_stack)
             got.clear()
             state["reacted"] = 0
-            try:
-                out = ses.apply(op)
-            except Hang:
-                break
+            special = rng.random()
+            if special < 0.15 and op["op"] in ("undo", "redo"):
+                # undo / redo bound to a button: called from inside the callback of ANOTHER signal
+                pressed_result_kind[0] = op["op"]
+                pressed_result.clear()
+                try:
+                    button.pressed.emit()
+                except Exception as e:  # noqa: BLE001
+                    fails.append(Failure("oracle", prop, f"{prop}|listeners|button-{op['op']}-raised",
+                                         f"{op['op']} from a signal callback raised {type(e).__name__}", {"spec": spec, "listener_history": copy.deepcopy(hist)}))
+                    break
+                out = "true" if (pressed_result and pressed_result[0]) else "false"
+                op = dict(op, _from_button=1)
+            elif special < 0.3 and op["op"] == "paint" and case.cfg == "seg" and op.get("value"):
+                # a stroke handed over as a one-shot iterator: refused (the list is walked twice);
+                # nothing may stay behind — in particular no blocked signal
+                groups = paint_groups(case, t, op)
+                idx = case.idx_tuple(op["pixels"])
+                old_px = t.segmentation[idx].copy()
+                t.segmentation[idx] = op["value"]
+                try:
+                    UserUpdateSegmentation(t, op["value"], iter([(case.idx_tuple(px), ov) for px, ov in groups]), op["tid"], force=bool(op["force"]))
+                    out = "ok"
+                except Exception as e:  # noqa: BLE001
+                    t.segmentation[idx] = old_px
+                    out = "err:" + type(e).__name__
+                op = dict(op, _as_iterator=1)
+                if out == "ok":
+                    break   # (accepted after all: not what this step is about)
+            else:
+                try:
+                    out = ses.apply(op)
+                except Hang:
+                    break
             hist.append({k: v for k, v in op.items() if k != "groups"} | {"_out": out, "_reaction_armed": state["arm"]})
             res.evaluations += 1
             # the reaction, when it happened, is a second successful top-level action
